@@ -40,7 +40,7 @@ func (ctl *HTTPGroupController) Register(
 		ctl.groups[indexKey] = g
 	}
 	ctl.mu.Unlock()
-	verifhook.At("group.lookedup", "kind", "http", "group", group, "obj", verifhook.ID(g), "created", !ok, "member", proxyName)
+	verifhook.At("group.lookedup", "kind", "http", "group", group, "obj", verifhook.ID(g), "created", !ok, "member", proxyName, "key", groupKey, "param", routeConfig.Domain+"|"+routeConfig.Location+"|"+routeConfig.RouteByHTTPUser)
 
 	return g.Register(proxyName, group, groupKey, routeConfig)
 }
@@ -52,6 +52,7 @@ func (ctl *HTTPGroupController) UnRegister(proxyName, group string, _ vhost.Rout
 	g, ok := ctl.groups[indexKey]
 	if !ok {
 		return
+		verifhook.At("group.leave.notfound", "kind", "http", "group", group, "member", proxyName)
 	}
 
 	isEmpty := g.UnRegister(proxyName)
